@@ -1,6 +1,8 @@
 import Lean.Data.Json
 import QrlewModel.Model.Intervals
 import QrlewModel.Model.Hierarchy
+import QrlewModel.Model.Rules
+import QrlewModel.Generated.Rules
 /-!
 JSON-lines driver over the executable model.  One input line = one harness line
 (`{"stream":..,"case":..,..}`); one output line = `{"model": <canonical output>}`.
@@ -65,6 +67,86 @@ def runHier (c : Json) : Option Json := do
     | none => Json.null
   pure (Json.arr res.toArray)
 
+def labelOfStr? : String → Option Label
+  | "priv" => some .priv | "sd" => some .sd | "pup" => some .pup | "dp" => some .dp | "pubd" => some .pubd | "pub" => some .pub
+  | _ => none
+
+def labelStr : Label → String
+  | .priv => "priv" | .sd => "sd" | .pup => "pup" | .dp => "dp" | .pubd => "pubd" | .pub => "pub"
+
+def ruleOfJson? (j : Json) : Option Rule := do
+  let ins ← (j.getArrVal? 0).toOption >>= jStrs?
+  let ins ← ins.mapM labelOfStr?
+  let out ← (j.getArrVal? 1).toOption >>= (fun s => s.getStr?.toOption) >>= labelOfStr?
+  pure ⟨ins, out⟩
+
+def ruleToJson (r : Rule) : Json :=
+  Json.arr #[Json.arr (r.inputs.map (fun l => Json.str (labelStr l))).toArray, Json.str (labelStr r.output)]
+
+/-- the annotated tree together with the node kinds (kept only to echo them back) -/
+partial def treeOfJson? (j : Json) : Option (RTree × Json) := do
+  let rules ← (j.getObjVal? "rules").toOption >>= (fun a => a.getArr?.toOption)
+  let rules ← rules.toList.mapM ruleOfJson?
+  let kids ← (j.getObjVal? "in").toOption >>= (fun a => a.getArr?.toOption)
+  let kids ← kids.toList.mapM treeOfJson?
+  match kids with
+  | [] => pure (.leaf rules, j)
+  | [c] => pure (.unary rules c.1, j)
+  | [l, r] => pure (.binary rules l.1 r.1, j)
+  | _ => none
+
+/-- echo the tree in the harness' shape, with the model's rules and the original node kinds -/
+partial def treeToJson (t : RTree) (orig : Json) : Json :=
+  let kind := (orig.getObjVal? "kind").toOption.getD Json.null
+  let okids := ((orig.getObjVal? "in").toOption >>= (fun a => a.getArr?.toOption)).getD #[]
+  let (rules, kids) : List Rule × List RTree := match t with
+    | .leaf rs => (rs, [])
+    | .unary rs c => (rs, [c])
+    | .binary rs l r => (rs, [l, r])
+  let jk := (kids.zip okids.toList).map fun (k, o) => treeToJson k o
+  Json.mkObj [("kind", kind), ("rules", Json.arr (rules.map ruleToJson).toArray), ("in", Json.arr jk.toArray)]
+
+def derivToJson : Deriv → Json
+  | .leaf r => Json.mkObj [("rule", ruleToJson r), ("in", Json.arr #[])]
+  | .unary r c => Json.mkObj [("rule", ruleToJson r), ("in", Json.arr #[derivToJson c])]
+  | .binary r a b => Json.mkObj [("rule", ruleToJson r), ("in", Json.arr #[derivToJson a, derivToJson b])]
+
+def chosenToJson : Option Deriv → Json
+  | none => Json.null
+  | some d => Json.mkObj [("deriv", derivToJson d), ("score", Json.num (JsonNumber.fromNat (score d)))]
+
+def kindOfStr? : String → Option Generated.NodeKind
+  | "tableProtected" => some .tableProtected | "tablePublic" => some .tablePublic | "values" => some .values
+  | "map" => some .map | "reduceDpOk" => some .reduceDpOk | "reduceDpNo" => some .reduceDpNo
+  | "join" => some .join | "set" => some .set | _ => none
+
+/-- every node of the real tree carries exactly the rules of the generated table for its kind -/
+partial def tableOk (synthetic hard : Bool) (j : Json) : Bool :=
+  let kind := ((j.getObjVal? "kind").toOption >>= (fun s => s.getStr?.toOption)) >>= kindOfStr?
+  let rules := ((j.getObjVal? "rules").toOption >>= (fun a => a.getArr?.toOption)) >>= (fun a => a.toList.mapM ruleOfJson?)
+  let kids := ((j.getObjVal? "in").toOption >>= (fun a => a.getArr?.toOption)).getD #[]
+  match kind, rules with
+  | some k, some rs => decide (rs = Generated.rulesFor k synthetic hard) && kids.toList.all (tableOk synthetic hard)
+  | _, _ => false
+
+def runRules (aux : Json) : Option Json := do
+  let tj ← (aux.getObjVal? "tree").toOption
+  let (t, orig) ← treeOfJson? tj
+  let hard ← (aux.getObjVal? "hard").toOption >>= (fun b => b.getBool?.toOption)
+  let synthetic ← (aux.getObjVal? "synthetic").toOption >>= (fun b => b.getBool?.toOption)
+  let e := eliminate t
+  let sel := select e
+  let cdp := choose accDP t
+  let cpup := choose accPUP t
+  pure (Json.mkObj [
+    ("table_ok", Json.bool (tableOk synthetic hard tj)),
+    ("elim", treeToJson e orig),
+    ("select", Json.arr (sel.map derivToJson).toArray),
+    ("chosen_dp", chosenToJson cdp),
+    ("chosen_pup", chosenToJson cpup),
+    ("dp_ok", if hard then Json.bool cdp.isSome else Json.null),
+    ("pup_ok", Json.bool cpup.isSome)])
+
 def handle (line : String) : Json :=
   match Json.parse line with
   | .error e => Json.mkObj [("model", Json.null), ("error", Json.str s!"parse: {e}")]
@@ -74,6 +156,7 @@ def handle (line : String) : Json :=
     let r : Option Json := match stream with
       | "intervals" => runIntervals c
       | "hier" => runHier c
+      | "rules" => runRules ((j.getObjVal? "aux").toOption.getD Json.null)
       | _ => none
     match r with
     | some m => Json.mkObj [("model", m)]
